@@ -78,6 +78,7 @@ type HarnessRun struct {
 	maxDepthSeen                 int
 	firstViol                    time.Time
 	restarts                     int
+	concrete                     map[string]uint64
 	cfg                          RunConfig
 }
 
@@ -121,6 +122,7 @@ type Machine struct {
 	nextFake  uint64
 	fakePtrs  map[uint64]Value
 	addrObjs  map[uint64]*ByteObj
+	concrete  map[string]uint64
 	concBound int
 	crcBound  int
 	copyBound int
@@ -400,6 +402,7 @@ func newMachine(hr *HarnessRun, solver *Solver, prefix []byte) *Machine {
 func (hr *HarnessRun) runPath(solver *Solver, prefix []byte) string {
 	solver.Reset()
 	m := newMachine(hr, solver, prefix)
+	m.concrete = hr.concrete
 	reason := ""
 	func() {
 		defer func() {
@@ -655,4 +658,26 @@ func (hr *HarnessRun) Inconclusive() []string {
 		}
 	}
 	return why
+}
+
+// ReplayConcrete re-executes the harness in the interpreter with every input (data and
+// scheduling choices) fixed to the counterexample's values - no solver decision is involved -
+// and reports whether the same violation occurs. Used for concurrent harnesses, whose
+// schedules cannot be forced on a native run.
+func (p *Program) ReplayConcrete(fn *ssa.Function, cfg RunConfig, v *Violation) bool {
+	hr := &HarnessRun{
+		p: p, fn: fn, name: fn.Name(), ended: map[string]int{}, cuts: map[string]int{},
+		viol: map[string]*Violation{}, witness: map[string]*Witness{}, reached: map[string]int{},
+		funcs: map[string]int{}, natives: map[string]int{}, skippedInit: map[string]int{}, maxPaths: 1, cfg: cfg,
+		concrete: v.Assign,
+	}
+	hr.cond = sync.NewCond(&hr.mu)
+	solver, err := NewSolver(cfg.Solver, cfg.TimeoutMs)
+	if err != nil {
+		return false
+	}
+	defer solver.Close()
+	hr.runPath(solver, nil)
+	_, ok := hr.viol[v.Kind+":"+v.Tag]
+	return ok
 }
